@@ -1,4 +1,6 @@
 """C06 - a Strict writer only ever emits lines that a Strict reader accepts."""
+import json
+
 from .. import colcases, impl, sortcases as SC
 from ..common import enc_val, exc_name, float_table, has_unmodelled
 from ..runner import Outcome
@@ -91,6 +93,97 @@ def strict_accepts(line):
         return False
 
 
+def make_request(sort, specs):
+    """The writer.run request of one session: a Strict writer (sorting or direct) offered the records `specs`, then closed."""
+    header = ["#version gdc-1.0.0"] + (["#sort.order Coordinate"] if sort else [])
+    ops = [{"k": "write", "rec": spec} for spec in specs] + [{"k": "close"}]
+    texts = [p for o in ops if o["k"] == "write" for c in o["rec"]["cols"] if c["value"].get("t") == "str" for p in [c["value"]["v"]]]
+    return {"op": "writer.run", "header_lines": header, "mode": "Strict", "assume_sorted": not sort, "ops": ops,
+            "floats": float_table(texts + ["1.5"])}
+
+
+def pack_session(r, kinds, sort):
+    """The inputs of a session, for replays: every column offered, as [key, value] when it is the scheme's column at its
+    own position (class taken from the scheme, index = position), else in full."""
+    recs = []
+    for o in r["ops"]:
+        if o["k"] != "write":
+            continue
+        cols = []
+        for pos, c in enumerate(o["rec"]["cols"]):
+            plain = c.get("scheme") == ANN and c.get("col") == c["key"] and c.get("index") == pos and set(c) == {"scheme", "col", "key", "value", "index"}
+            cols.append([c["key"], c["value"]] if plain else c)
+        recs.append({"cols": cols, "mut": o["rec"].get("mut", [])})
+    return {"sorting": sort, "deviations": list(kinds), "records": recs}
+
+
+def unpack_session(sess):
+    specs = []
+    for rec in sess["records"]:
+        cols = [{"scheme": ANN, "col": c[0], "key": c[0], "value": c[1], "index": pos} if isinstance(c, list) else dict(c)
+                for pos, c in enumerate(rec["cols"])]
+        specs.append({"cols": cols, "mut": [dict(m) for m in rec.get("mut", [])]})
+    return bool(sess["sorting"]), list(sess["deviations"]), specs
+
+
+def eval_session(r, kinds, sort):
+    """Run one writer session on the implementation and apply the oracle (shared by run and replay_case).
+
+    Returns (implementation's answer, failures, [(step, where, refused)] for the write steps or None when the writer could not be opened)."""
+    i = impl.run(r)
+    fails = []
+    sess = pack_session(r, kinds, sort)
+    ncols = len(impl.scheme_by_annotation(ANN).column_names())
+    if "init_exc" in i:
+        fails.append({"what": "Strict writer could not be opened on a valid header", "kind": "init", "got": i["init_exc"], "session": sess})
+        return i, fails, None
+    prev = i["init_out"]
+    accepted = 0
+    steps = []
+    for k, (o, st) in enumerate(zip(r["ops"], i["steps"])):
+        where = {"sorting": sort, "deviation": kinds[k] if k < len(kinds) else "close",
+                 "record": summarize(o["rec"], kinds[k]) if o["k"] == "write" else None}
+        if o["k"] == "write":
+            if st["exc"] is not None:
+                if not st["exc"].startswith("MafFormatException"):
+                    fails.append(dict(where, what="a non-conforming record was refused with %s, not the library's format exception" % st["exc"],
+                                      kind="wrong-exception", step=k, session=sess))
+                if st["out"] != prev:
+                    fails.append(dict(where, what="a refused record contributed bytes to the output", kind="bytes-on-refusal", step=k, session=sess))
+            else:
+                accepted += 1
+                if not sort:
+                    new = st["out"][len(prev):]
+                    line = new[:-1] if new.endswith("\n") else new
+                    if new.count("\n") != 1 or len(line.split("\t")) != ncols or not strict_accepts(line):
+                        fails.append(dict(where, what="the Strict writer emitted a line that a Strict reader does not accept",
+                                          kind="emitted-nonconforming", line=line[:200], step=k, session=sess))
+            steps.append((k, where, st["exc"] is not None))
+        else:
+            if st["exc"] is not None:
+                fails.append(dict(where, what="closing the writer failed with %s" % st["exc"], kind="close-failed", step=k, session=sess))
+        prev = st["out"]
+    # the produced file is accepted in full by a Strict reader
+    text = i["steps"][-1]["out"]
+    lines = text.split("\n")
+    if lines and lines[-1] == "":
+        lines.pop()
+    rd = impl.run({"op": "reader.run", "lines": lines, "mode": "Strict"})
+    if rd.get("init_exc") or rd.get("iter_exc") or len(rd.get("records", [])) != accepted:
+        fails.append({"what": "the produced file is not accepted in full by a Strict reader", "kind": "file-rejected", "sorting": sort,
+                      "deviations": kinds, "got": rd.get("init_exc") or rd.get("iter_exc") or "%d records for %d accepted" % (len(rd.get("records", [])), accepted),
+                      "records": [summarize(o["rec"], kd) for o, kd in zip(r["ops"], kinds)], "session": sess})
+    return i, fails, steps
+
+
+def model_differs(r, kinds, sort, m, i):
+    k = next((j for j, (a, b) in enumerate(zip(m.get("steps", []), i.get("steps", []))) if a != b), None)
+    return {"op": "writer.run", "kinds": kinds, "sorting": sort, "step": k,
+            "record": None if k is None or k >= len(kinds) else summarize(r["ops"][k]["rec"], kinds[k]),
+            "model": None if k is None else {"exc": m["steps"][k]["exc"], "tail": m["steps"][k]["out"][-80:]},
+            "impl": None if k is None else {"exc": i["steps"][k]["exc"], "tail": i["steps"][k]["out"][-80:]}}
+
+
 def run(ctx):
     out = Outcome()
     out.rule = ("Strict writers (direct and sorting) under gdc-1.0.0 offered conforming records interleaved with records deviating in one way: a value of a wrong Python type / out of range / "
@@ -100,77 +193,82 @@ def run(ctx):
     reqs, meta = [], []
     for _ in range(ctx.scale(260, 3000)):
         sort = rng.random() < 0.35
-        header = ["#version gdc-1.0.0"] + (["#sort.order Coordinate"] if sort else [])
-        ops, kinds = [], []
+        specs, kinds = [], []
         for _k in range(rng.randrange(1, 4)):
             cols, text = conforming_cols(rng)
             if rng.random() < 0.6:
                 spec, kind = deviate(rng, cols)
             else:
                 spec, kind = {"cols": cols, "mut": []}, "conforming"
-            ops.append({"k": "write", "rec": spec})
+            specs.append(spec)
             kinds.append(kind)
-        ops.append({"k": "close"})
-        texts = [p for o in ops if o["k"] == "write" for c in o["rec"]["cols"] if c["value"].get("t") == "str" for p in [c["value"]["v"]]]
-        reqs.append({"op": "writer.run", "header_lines": header, "mode": "Strict", "assume_sorted": not sort, "ops": ops,
-                     "floats": float_table(texts + ["1.5"])})
+        reqs.append(make_request(sort, specs))
         meta.append((kinds, sort))
     mo = ctx.driver.run(reqs)
-    ncols = len(impl.scheme_by_annotation(ANN).column_names())
     for r, m, (kinds, sort) in zip(reqs, mo, meta):
         out.evaluations += 1
-        i = impl.run(r)
+        i, fails, steps = eval_session(r, kinds, sort)
         if has_unmodelled(m):
             out.unmodelled += 1
         elif m != i:
-            k = next((j for j, (a, b) in enumerate(zip(m.get("steps", []), i.get("steps", []))) if a != b), None)
-            out.disagreements.append({"op": "writer.run", "kinds": kinds, "sorting": sort, "step": k,
-                                      "record": None if k is None or k >= len(kinds) else summarize(r["ops"][k]["rec"], kinds[k]),
-                                      "model": None if k is None else {"exc": m["steps"][k]["exc"], "tail": m["steps"][k]["out"][-80:]},
-                                      "impl": None if k is None else {"exc": i["steps"][k]["exc"], "tail": i["steps"][k]["out"][-80:]}})
-        if "init_exc" in i:
-            out.failures.append({"what": "Strict writer could not be opened on a valid header", "kind": "init", "got": i["init_exc"]})
+            out.disagreements.append(model_differs(r, kinds, sort, m, i))
+        out.failures += fails
+        if steps is None:
             continue
-        prev = i["init_out"]
-        accepted = 0
-        for k, (o, st) in enumerate(zip(r["ops"], i["steps"])):
-            where = {"sorting": sort, "deviation": kinds[k] if k < len(kinds) else "close",
-                     "record": summarize(o["rec"], kinds[k]) if o["k"] == "write" else None}
-            if o["k"] == "write":
-                if st["exc"] is not None:
-                    if not st["exc"].startswith("MafFormatException"):
-                        out.failures.append(dict(where, what="a non-conforming record was refused with %s, not the library's format exception" % st["exc"],
-                                                 kind="wrong-exception"))
-                    if st["out"] != prev:
-                        out.failures.append(dict(where, what="a refused record contributed bytes to the output", kind="bytes-on-refusal"))
-                else:
-                    accepted += 1
-                    if not sort:
-                        new = st["out"][len(prev):]
-                        line = new[:-1] if new.endswith("\n") else new
-                        if new.count("\n") != 1 or len(line.split("\t")) != ncols or not strict_accepts(line):
-                            out.failures.append(dict(where, what="the Strict writer emitted a line that a Strict reader does not accept",
-                                                     kind="emitted-nonconforming", line=line[:200]))
-                out.distribution["dev:" + kinds[k] + (":refused" if st["exc"] else ":accepted")] += 1
-                if kinds[k] != "conforming":
-                    out.nontrivial.add(repr(where))
-            else:
-                if st["exc"] is not None:
-                    out.failures.append(dict(where, what="closing the writer failed with %s" % st["exc"], kind="close-failed"))
-            prev = st["out"]
-        # the produced file is accepted in full by a Strict reader
-        text = i["steps"][-1]["out"]
-        lines = text.split("\n")
-        if lines and lines[-1] == "":
-            lines.pop()
-        rd = impl.run({"op": "reader.run", "lines": lines, "mode": "Strict"})
-        if rd.get("init_exc") or rd.get("iter_exc") or len(rd.get("records", [])) != accepted:
-            out.failures.append({"what": "the produced file is not accepted in full by a Strict reader", "kind": "file-rejected", "sorting": sort,
-                                 "deviations": kinds, "got": rd.get("init_exc") or rd.get("iter_exc") or "%d records for %d accepted" % (len(rd.get("records", [])), accepted),
-                                 "records": [summarize(o["rec"], kd) for o, kd in zip(r["ops"], kinds)]})
+        for k, where, refused in steps:
+            out.distribution["dev:" + kinds[k] + (":refused" if refused else ":accepted")] += 1
+            if kinds[k] != "conforming":
+                out.nontrivial.add(repr(where))
         if len(out.samples) < 3 and any(kd != "conforming" for kd in kinds):
             out.sample({"sorting": sort, "deviations": kinds, "excs": [s["exc"] for s in i["steps"]]})
     return out
+
+
+def replay_case(ctx, failure):
+    """Re-evaluate the stored failing input on the current implementation; return the list of failure dicts it
+    produces now (empty list = the property holds on that input)."""
+    sess = failure.get("session")
+    if not isinstance(sess, dict) or any(k not in sess for k in ("sorting", "deviations", "records")):
+        return None          # older replay files hold only a summary of the deviating record
+    sort, kinds, specs = unpack_session(sess)
+    r = make_request(sort, specs)
+    print("Strict %s writer, header %s" % ("sorting" if sort else "direct", r["header_lines"]))
+    for k, (spec, kd) in enumerate(zip(specs, kinds)):
+        sm = summarize(spec, kd)
+        print("    step %d: write a %s record (%d columns)%s%s" % (k, kd, sm["n_cols"],
+              "" if not sm["odd_columns"] else "; unusual columns %s" % json.dumps(sm["odd_columns"]),
+              "" if not sm["mut"] else "; then mutated %s" % json.dumps(sm["mut"])))
+    print("    step %d: close" % len(specs))
+    i, fails, steps = eval_session(r, kinds, sort)
+
+    def show(who, a):
+        if "init_exc" in a:
+            print("%s: opening the writer failed with %s" % (who, a["init_exc"]))
+            return
+        prev = a["init_out"]
+        for k, st in enumerate(a["steps"]):
+            new = st["out"][len(prev):] if st["out"].startswith(prev) else st["out"]
+            nl = new.count("\n")
+            print("%s: step %d %s; output grew by %d line(s)%s" % (who, k, "raised " + st["exc"] if st["exc"] else "ok", nl,
+                  "" if not new or nl > 1 else ": %r" % ("\t".join(new.split("\t")[:6]) + ("..." if new.count("\t") >= 6 else ""))))
+            prev = st["out"]
+    show("implementation", i)
+    try:
+        m = ctx.driver.run([r])[0]
+        if has_unmodelled(m):
+            print("model: outside the model's domain")
+        elif m == i:
+            print("model: the same, step by step")
+        else:
+            show("model", m)
+            print("model: differs from the implementation at step %s" % model_differs(r, kinds, sort, m, i)["step"])
+    except Exception as e:  # noqa
+        print("model: not available (%s)" % str(e)[:200])
+    for f in fails:
+        print("oracle fails%s: %s" % (" (step %d)" % f["step"] if "step" in f else "", f["what"]))
+    # the stored violation first, when it is still there
+    fails.sort(key=lambda f: not (f.get("kind") == failure.get("kind") and f.get("step") == failure.get("step")))
+    return fails
 
 
 def summarize(spec, kind):
